@@ -180,9 +180,103 @@ def hash_semantic(chk, program):
               found=descr(), detail='' if shape_ok and sep_ok else 'a non-key field, the source, an ambiguous concatenation or a missing key field changes which messages share a hash')
     return True
 
+def hash_history(chk, program):
+    """[HASH-HIST] the hash as a function of (definition id, raw values of the key fields) over a history: add_data interpreted (absint) on one
+    module state -- whatever the module keeps between calls stays -- for five concrete messages in a row:
+      A  id idA, PGN 130000, key 5, non-key 6, key 7      B  id idB, same PGN, same values      C  idA with the non-key field changed
+      D  idA with a key field changed                     E  A again
+    Required: hash(B) != hash(A), hash(C) == hash(A), hash(D) != hash(A), hash(E) == hash(A), every hash a hashlib digest.  Two digests are equal
+    exactly when algorithm and digested text are.  -> True when the history was interpretable."""
+    from . import absint as A
+    from .wire import is_logger
+    fn = program.fn('message', 'NMEA2000Message.add_data')
+    cls = program.cls('message', 'NMEA2000Message')
+    methods = {n.name: n for n in cls.body if isinstance(n, ast.FunctionDef)}
+    funcs = {q: f for q, f in program.mod('message').defs.items() if '.' not in q}
+    params = [a.arg for a in fn.args.args]
+    ALGOS = ('md5', 'sha1', 'sha224', 'sha256', 'sha384', 'sha512', 'blake2b', 'blake2s', 'sha3_256', 'sha3_512')
+    def text_of(a, it):
+        if isinstance(a, A.AStr):
+            out = ''
+            for p_ in a.pieces:
+                if p_[0] == 'lit':
+                    out += p_[1]
+                elif p_[0] == 'decint' and isinstance(p_[1], A.AInt) and p_[1].v is not None:
+                    out += str(p_[1].v)
+                else:
+                    raise A.Unknown('digested text is not concrete')
+            return out
+        if isinstance(a, A.ABytes) and all(x[0] == 'c' for x in a.items):
+            return bytes(x[1] for x in a.items).decode('latin-1')
+        raise A.Unknown(f"digested value not followed: {a!r}"[:80])
+    def hook(it, call, env):
+        f = call.func
+        if isinstance(f, ast.Name) and f.id == 'hash' and 'hash' not in env:
+            raise A.Unknown('builtin hash()')
+        algo = None
+        if isinstance(f, ast.Attribute) and isinstance(f.value, ast.Name) and f.value.id == 'hashlib' and f.attr in ALGOS:
+            algo = f.attr; args = [it.expr(a, env) for a in call.args]
+        elif isinstance(f, ast.Name) and f.id in ALGOS and f.id not in env:
+            algo = f.id; args = [it.expr(a, env) for a in call.args]
+        elif isinstance(f, ast.Attribute) and isinstance(f.value, ast.Name) and f.value.id == 'hashlib' and f.attr == 'new':
+            args = [it.expr(a, env) for a in call.args]
+            if not args or not isinstance(args[0], A.AStr) or args[0].literal() is None:
+                raise A.Unknown('hashlib.new(<abstract>)')
+            algo, args = args[0].literal(), args[1:]
+        if algo is not None:
+            return A.AObj(hasher=algo, text=''.join(text_of(a, it) for a in args))
+        if isinstance(f, ast.Attribute) and f.attr in ('update', 'hexdigest', 'digest', 'copy', 'hex'):
+            try:
+                o = it.expr(f.value, env)
+            except A.Unknown:
+                return NotImplemented
+            if isinstance(o, A.AObj) and 'hasher' in o.attrs:
+                if f.attr == 'update':
+                    o.attrs['text'] += ''.join(text_of(it.expr(a, env), it) for a in call.args)
+                    return None
+                if f.attr == 'copy':
+                    return A.AObj(hasher=o.attrs['hasher'], text=o.attrs['text'])
+                if f.attr in ('hexdigest', 'digest'):
+                    return A.AStr([('lit', f"<{f.attr} {o.attrs['hasher']} of {o.attrs['text']!r}>")])
+        return NotImplemented
+    def fld(i, pk, raw):
+        return A.AObj(id=A.AStr([('lit', f"f{i}")]), raw_value=A.AInt(raw), value=A.AInt(raw * 10), part_of_primary_key=pk, name=A.AStr([('lit', f"F{i}")]), unit_of_measurement=None,
+                      physical_quantities=None, type=A.AOpaque('type'), description=None)
+    try:
+        it = A.Interp(hook=hook, skip=is_logger, methods=methods, functions=funcs, module=A.ModuleEnv(program.mod('message').tree))
+        out = {}
+        for tag, mid, vals in (('A', 'idA', (5, 6, 7)), ('B', 'idB', (5, 6, 7)), ('C', 'idA', (5, 99, 7)), ('D', 'idA', (5, 6, 8)), ('E', 'idA', (5, 6, 7))):
+            msg = A.AObj(id=A.AStr([('lit', mid)]), PGN=A.AInt(130000), fields=A.AList([fld(1, True, vals[0]), fld(2, False, vals[1]), fld(3, True, vals[2])]), hash=None,
+                         description=A.AStr([('lit', 'descr')]), ttl=None)
+            args = [msg]
+            for p_ in params[1:]:
+                if 'network' in p_ or 'map' in p_:
+                    args.append(True)
+                elif p_ in ('src', 'dest', 'priority'):
+                    args.append(A.AInt({'src': 7, 'dest': 255, 'priority': 3}[p_]))
+                elif p_ == 'source_iso_name':
+                    args.append(None)
+                else:
+                    args.append(A.AOpaque(p_))
+            it.call_function(fn, args)
+            h = msg.attrs.get('hash')
+            if not (isinstance(h, A.AStr) and h.literal() is not None):
+                raise A.Unknown(f"hash of message {tag} not followed: {h!r}"[:100])
+            out[tag] = h.literal()
+    except (A.Unknown, A.RaiseSignal, KeyError, TypeError, AttributeError) as u:
+        chk.unit('hash_history_not_interpretable', f"{type(u).__name__}: {u}"[:160])
+        return False
+    for name, ok, exp in (('another-definition-same-PGN-same-keys', out['B'] != out['A'], 'a different hash than A (the definition id is part of the identity)'),
+                          ('non-key-field-changed', out['C'] == out['A'], 'the hash of A'), ('key-field-changed', out['D'] != out['A'], 'a different hash than A'),
+                          ('same-message-again', out['E'] == out['A'], 'the hash of A')):
+        chk.check(ok, 'HASH-DEPS', f"history::{name}", file=MSG, line=fn.lineno, func='add_data', expected=exp, found='ok' if ok else {k: v[:80] for k, v in out.items()},
+                  detail='' if ok else 'something kept between calls (a cache keyed too coarsely) or a wrong input makes messages share / not share a hash')
+    return True
+
 def hash_rules(chk, program):
     fn = program.fn('message', 'NMEA2000Message.add_data')
     params = [a.arg for a in fn.args.args]
+    hist = hash_history(chk, program)
     if hash_semantic(chk, program):
         _hash_order(chk, program)
         return
